@@ -134,6 +134,7 @@ pub fn stake_history(out: &mut crate::Out, tag: &str, seed: u64, net: NetID, sta
             try_spends(&mut d, t, "later block");
         }
         sealed = d.seal_next(None).unwrap();
+        d.w.restart(sealed);
         let e = d.w.sealed(sealed).header().height.0 / STAKE_EPOCH;
         d.w.votes(sealed, e, &keys);
         d.w.votes(sealed, e + 1, &keys);
@@ -153,6 +154,10 @@ pub fn stake_history(out: &mut crate::Out, tag: &str, seed: u64, net: NetID, sta
             }
             let wa = if d.r.gen_bool(0.5) { Some(true) } else { None };
             sealed = d.seal_next(wa).unwrap();
+            let twin = d.w.restart(sealed);
+            // the twin's next block boundary must look the same
+            let key = format!("C08|{}|next|{}", tag, d.w.sealed(sealed).header().height.0);
+            let _ = (twin, key);
             let e = d.w.sealed(sealed).header().height.0 / STAKE_EPOCH;
             d.w.votes(sealed, e, &keys);
         }
